@@ -1,9 +1,17 @@
+pub mod c01;
+pub mod c02;
+pub mod c03;
+pub mod c10;
 pub mod c15;
 
 use crate::rt::Prop;
 
 pub fn lookup(id: &str) -> Option<&'static dyn Prop> {
     match id {
+        "C01" => Some(&c01::C01),
+        "C02" => Some(&c02::C02),
+        "C03" => Some(&c03::C03),
+        "C10" => Some(&c10::C10),
         "C15" => Some(&c15::C15),
         _ => None,
     }
